@@ -479,7 +479,7 @@ impl Prop for C10 {
 
 	fn enumerate(_tier: Tier, shard: usize, nshards: usize, f: &mut dyn FnMut(Case, bool) -> bool) -> Vec<&'static str> {
 		// all initial paths of <= 2 segments over {a, '', ., .., a:b} x 4 hosts x ALL op sequences of length <= 2
-		let alphabet = ["a", "", ".", "..", "a:b"];
+		let alphabet = ["a", "", ".", "..", "a:b", "C:"];
 		let mut inits: Vec<Vec<String>> = vec![vec![]];
 		for x in alphabet {
 			inits.push(vec![x.to_string()]);
@@ -503,6 +503,10 @@ impl Prop for C10 {
 			Some(Embed { full: false, scheme: None, authority: None, query: None, fragment: Some("f".into()) }),
 			Some(Embed { full: false, scheme: None, authority: Some("h".into()), query: Some("q".into()), fragment: None }),
 			Some(Embed { full: true, scheme: Some("s".into()), authority: Some("".into()), query: None, fragment: None }),
+			// behaviour must not depend on WHICH scheme it is
+			Some(Embed { full: true, scheme: Some("file".into()), authority: Some("".into()), query: None, fragment: None }),
+			Some(Embed { full: true, scheme: Some("http".into()), authority: Some("h".into()), query: None, fragment: None }),
+			Some(Embed { full: true, scheme: Some("FILE".into()), authority: None, query: None, fragment: None }),
 		];
 		let mut i = 0usize;
 		for e in &embeds {
